@@ -200,6 +200,8 @@ CHECKS = {
     ),
     "C11": dict(
         kind="rc_program", target="t_queries", level="exploration",
+        also=[dict(target="t_tet", workers=2, quick_max_success=400, thorough_max_success=6000, len_scale=0.4),
+              dict(target="t_hex", workers=2, quick_max_success=300, thorough_max_success=5000, len_scale=0.4)],
         quick=dict(workers=16, max_success=2000, max_size=100, len_scale=0.6, timeout=900),
         thorough=dict(workers=16, max_success=40000, max_size=100, len_scale=2.0, timeout=3600),
         rule=("cases = random histories containing add_edge with/without allowDuplicates on existing / reversed / "
@@ -212,7 +214,7 @@ CHECKS = {
         assumptions=["only free halffaces are offered to add_cell (domain: no halfface in two live cells)"],
         technique="rapidcheck histories + acceptance predicate + handle-exact before/after snapshots",
         level_text="Validation logic of the polyhedral kernel against an independent closedness predicate, with full-state unchanged checks.",
-        level_note="Tet/hex valence validation is covered by C15/C16.",
+        level_note="Tetrahedral / hexahedral kernels: 2 workers each of the C15 / C16 harnesses (t_tet, t_hex) run under this id - wrong-valence faces and cells through every add_face / add_cell overload (vertex lists, halfedge loops of length 2/4/5, halfface lists of wrong length), permuted / flipped / doubled / foreign halfface lists with topology check: rejected calls leave the mesh unchanged, valid permuted lists are accepted.",
     ),
     "C06": dict(
         kind="rc_program", target="t_io", level="exploration",
